@@ -319,7 +319,7 @@ class AttrHist:
             return True
         if self.kind == "coll":
             return sorted(members(self.cur)) != sorted(self.orig)
-        return self.absent or self.cur != self.orig
+        return self.effective() != self.orig
 
     def check(self, h):
         """h = (added, unchanged, deleted) as tuples of names/values.  returns
@@ -332,7 +332,9 @@ class AttrHist:
             return self._check_coll(added, unchanged, deleted)
         if not self.dirty:
             exp = ((), (self.cur,), ()) if self.loaded and not self.absent else ((), (), ())
-            if (added, unchanged, deleted) != exp and not (exp == ((), (None,), ()) and (added, unchanged, deleted) == ((), (), ())):
+            got = (added, unchanged, deleted)
+            none_eq = {((), (None,), ()), ((), (), ())}
+            if got != exp and not (exp in none_eq and got in none_eq):
                 # (None and "no value" are the same committed state)
                 return "unmodified attribute reports %r, expected %r" % ((added, unchanged, deleted), exp)
             return None
